@@ -407,7 +407,7 @@ func W7AdjacentInDocs(sink Sink) {
 // validation to forget; seeded change C03r6-m1: strings of 128+ bytes skip the control-byte check).
 func W7LongPositions(sink Sink) {
 	c := &h.Case{Family: "W7lp"}
-	specials := []string{`\n`, "\x1f", "\x00", "\x0a", `"`, "\xff", `\u00e9`, `\ud800`, `\`, `\x`, "\x7f"}
+	specials := []string{`\n`, "\x1f", "\x00", "\x0a", `"`, "\xff", `\u00e9`, `\ud800`, `\`, `\x`, "\x7f", `\\`, `\\\"`, `\\\\`} // escaped backslashes right before the closing quote or around a 64-byte boundary (C01r8-m1)
 	c.DescFn = func(c *h.Case) string {
 		return fmt.Sprintf("plain string of length %d with %q at offset %d, tail #%d", c.P[0], specials[c.P[1]], c.P[2], c.P[3])
 	}
@@ -474,4 +474,43 @@ func W7LongPositionsInDocs(sink Sink) {
 			sink(c)
 		}
 	})
+}
+
+// W7Runs: uninterrupted runs of 0..70 unicode escapes followed directly by an escaped surrogate
+// pair (and by a lone high surrogate), then 0..2 more escapes: a decoder that takes escapes in
+// batches, or looks at a bounded window, splits the pair at some alignment (seeded change
+// C06r8-m2: 16 code units per batch inside a 96-byte window).
+func W7Runs(sink Sink) {
+	c := &h.Case{Family: "W7r"}
+	c.DescFn = func(c *h.Case) string {
+		return fmt.Sprintf("%d unicode escapes, then tail #%d, then %d more, wrapping %d", c.P[0], c.P[1], c.P[2], c.P[3])
+	}
+	tails := []string{`\ud83d\ude00`, `\ud83d`, `\ud83d\u0041`, `\udbff\udfff`, `\ud800\udc00x`}
+	wraps := [][2]string{{`"`, `"`}, {`["`, `",1]`}, {`{"`, `":1}`}, {`{"k":"`, `"}`}}
+	units := []string{`\u0041`, `\u00e9`, `\u4e2d`}
+	for n := 0; n <= 70; n++ {
+		for ti, tl := range tails {
+			for more := 0; more <= 2; more++ {
+				for wi, w := range wraps {
+					if wi > 0 && n%3 != 0 {
+						continue
+					}
+					var b []byte
+					b = append(b, w[0]...)
+					for i := 0; i < n; i++ {
+						b = append(b, units[(i+n)%3]...)
+					}
+					b = append(b, tl...)
+					for i := 0; i < more; i++ {
+						b = append(b, units[i%3]...)
+					}
+					b = append(b, w[1]...)
+					c.Input = b
+					c.Desc = ""
+					c.P = [4]int{n, ti, more, wi}
+					sink(c)
+				}
+			}
+		}
+	}
 }
